@@ -55,6 +55,30 @@ def lean_str(s: str) -> str:
     return "".join(out)
 
 
+def lean_char(ch: str) -> str:
+    o = ord(ch)
+    if ch == "\\":
+        return "'\\\\'"
+    if ch == "'":
+        return "'\\''"
+    if ch == "\n":
+        return "'\\n'"
+    if ch == "\r":
+        return "'\\r'"
+    if ch == "\t":
+        return "'\\t'"
+    if o < 32 or o == 127:
+        return "'\\x%02x'" % o
+    if o > 126:
+        return "'\\u{%x}'" % o
+    return "'" + ch + "'"
+
+
+def lean_cs(s: str) -> str:
+    """a Python string as a Lean `List Char` literal (the kernel evaluates lists of characters quickly, `String` operations very slowly)"""
+    return "[" + ", ".join(lean_char(c) for c in s) + "]"
+
+
 def lean_bool(b) -> str:
     if b is True:
         return "true"
@@ -226,20 +250,41 @@ def yaml_rows():
     return rows, how
 
 
-def fn_row(r) -> str:
-    df = "none" if r["data_format"] is None else "some " + lean_str(r["data_format"])
-    return (f'  ⟨{lean_str(r["cls"])}, {r["stream"]}, {r["function"]}, ' + ", ".join(lean_bool(b) for b in r["flags"]) + f", {df}⟩")
+def fn_row(r, prefix) -> str:
+    df = "none" if r["data_format"] is None else f"some {prefix}_{r['cls']}"
+    return (f'  ⟨{lean_cs(r["cls"])}, {r["stream"]}, {r["function"]}, ' + ", ".join(lean_bool(b) for b in r["flags"]) + f", {df}⟩")
+
+
+def fmt_defs(rows, prefix) -> str:
+    """one definition per structure text (a single list literal of all texts exceeds the elaborator's recursion depth)"""
+    out = []
+    for r in rows:
+        if r["data_format"] is not None:
+            out.append(f"def {prefix}_{r['cls']} : List Char := {lean_cs(r['data_format'])}")
+    return "\n".join(out) + "\n"
+
+
+CHUNKS = 4
+
+
+def chunked(name: str, rows: list) -> str:
+    """the table as CHUNKS pieces `name0 … name3` and their concatenation (obligations are proved per piece, in parallel modules)"""
+    n = (len(rows) + CHUNKS - 1) // CHUNKS if rows else 1
+    parts = [rows[i * n:(i + 1) * n] for i in range(CHUNKS)]
+    out = [f"def {name}{i} : List Fn := [\n" + ",\n".join(p) + "]\n" for i, p in enumerate(parts)]
+    out.append(f"def {name} : List Fn := " + " ++ ".join(f"{name}{i}" for i in range(CHUNKS)) + "\n")
+    return "\n".join(out)
 
 
 def unit_Catalogue():
     prow = py_rows()
     yrow, how = yaml_rows()
     out = [G.HEADER.format(src="secsgem/secs/functions/_all.py, secsgem/secs/functions/sXXfYY.py, secsgem/secs/functions/base.py, secsgem/secs/functions.yaml"),
-           "namespace SecsModel.Gen.Catalogue\n",
+           "set_option maxRecDepth 100000\nnamespace SecsModel.Gen.Catalogue\n",
            "/-- one catalogued stream/function: the class attributes `_stream`, `_function`, `_to_host`, `_to_equipment`, `_has_reply`,",
            "`_is_reply_required`, `_is_multi_block`, `_data_format` (YAML: `to_host`, `to_equipment`, `reply`, `reply_required`, `multi_block`, `structure`) -/",
            "structure Fn where",
-           "  cls : String",
+           "  cls : List Char",
            "  stream : Nat",
            "  function : Nat",
            "  toHost : Bool",
@@ -247,12 +292,14 @@ def unit_Catalogue():
            "  hasReply : Bool",
            "  replyRequired : Bool",
            "  multiBlock : Bool",
-           "  dataFormat : Option String",
+           "  dataFormat : Option (List Char)",
            "deriving Repr, DecidableEq\n",
+           fmt_defs(prow, "fmt"),
            "/-- `secs_streams_functions` (functions/_all.py), in list order -/",
-           "def py : List Fn := [\n" + ",\n".join(fn_row(r) for r in prow) + "]\n",
+           chunked("py", [fn_row(r, "fmt") for r in prow]),
+           fmt_defs(yrow, "yfmt"),
            "/-- `functions.yaml`, in file order -/",
-           "def yaml : List Fn := [\n" + ",\n".join(fn_row(r) for r in yrow) + "]\n",
+           chunked("yaml", [fn_row(r, "yfmt") for r in yrow]),
            "end SecsModel.Gen.Catalogue\n"]
     G.write("Catalogue", "\n".join(out))
     G.FACTS["Catalogue"] = {"py": [{k: v for k, v in r.items()} for r in prow], "yaml": yrow, "yaml_parser": how}
@@ -356,25 +403,25 @@ def unit_DataItems():
             attrs_all.append(n)
 
     def row(r):
-        al = "[" + ", ".join(lean_str(a) for a in r["allowed"]) + "]"
-        return f'  ⟨{lean_str(r["cls"])}, {lean_str(r["name"])}, {lean_str(r["type"])}, {al}, {r["count"]}⟩'
+        al = "[" + ", ".join(lean_cs(a) for a in r["allowed"]) + "]"
+        return f'  ⟨{lean_cs(r["cls"])}, {lean_cs(r["name"])}, {lean_cs(r["type"])}, {al}, {r["count"]}⟩'
     out = [G.HEADER.format(src="secsgem/secs/data_items/_all.py, secsgem/secs/data_items/<item>.py, secsgem/secs/data_items/__init__.py, base.py"),
            "namespace SecsModel.Gen.DataItems\n",
            "/-- a data item class: `__name__`, its `name` attribute, `__type__`, `__allowedtypes__` (declared order), `__count__` -/",
            "structure Item where",
-           "  cls : String",
-           "  name : String",
-           "  type : String",
-           "  allowed : List String",
+           "  cls : List Char",
+           "  name : List Char",
+           "  type : List Char",
+           "  allowed : List (List Char)",
            "  count : Int",
            "deriving Repr, DecidableEq\n",
            "/-- `secs_data_items` (data_items/_all.py), in list order -/",
            "def items : List Item := [\n" + ",\n".join(row(r) for r in rows) + "]\n",
            "/-- every name `getattr(secsgem.secs.data_items, n, None)` resolves to something: the classes `__init__.py` imports,",
            "the submodules those imports bind on the package, the module dunders -/",
-           "def moduleAttrs : List String := [" + ", ".join(lean_str(a) for a in attrs_all) + "]\n",
+           "def moduleAttrs : List (List Char) := [" + ", ".join(lean_cs(a) for a in attrs_all) + "]\n",
            "/-- the names among `moduleAttrs` that are data item classes (imported by `__init__.py` and listed in `secs_data_items`) -/",
-           "def moduleClasses : List String := [" + ", ".join(lean_str(c) for c in classes if c in {r["cls"] for r in rows}) + "]\n",
+           "def moduleClasses : List (List Char) := [" + ", ".join(lean_cs(c) for c in classes if c in {r["cls"] for r in rows}) + "]\n",
            "end SecsModel.Gen.DataItems\n"]
     G.write("DataItems", "\n".join(out))
     G.FACTS["DataItems"] = {"items": rows, "module_attrs": attrs_all}
